@@ -9,6 +9,7 @@ import (
 
 	"github.com/formancehq/go-libs/v5/pkg/query"
 	"github.com/formancehq/go-libs/v5/pkg/storage/bun/paginate"
+	"github.com/formancehq/go-libs/v5/pkg/storage/postgres"
 	"github.com/formancehq/go-libs/v5/pkg/types/pointer"
 	libtime "github.com/formancehq/go-libs/v5/pkg/types/time"
 
@@ -128,29 +129,38 @@ func (w *World) checkTransactions(l *LState, pit *time.Time, pageSize uint64, or
 		if *g.ID != m.ID {
 			w.V("C21", "%s: position %d holds transaction %d, expected %d\nhistory:\n  %s", what, i, *g.ID, m.ID, l.History())
 		}
-		_, reverted, meta := txAt(m, pit, history)
-		if !postingsEqual(g.Postings, m.Postings) || g.Reference != m.Reference || !tm(g.Timestamp).Equal(m.Timestamp) || !tm(g.InsertedAt).Equal(m.InsertedAt) {
-			w.V("C02", "%s: transaction %d read back differently: postings=%s ref=%q ts=%s insertedAt=%s; committed as %+v\nhistory:\n  %s",
-				what, m.ID, postingsStr(g.Postings), g.Reference, tm(g.Timestamp), tm(g.InsertedAt), m, l.History())
-		}
-		if g.IsReverted() != reverted {
-			w.V("C05", "%s: transaction %d reverted=%v, model says %v (revertedAt %v)\nhistory:\n  %s", what, m.ID, g.IsReverted(), reverted, m.RevertedAt, l.History())
-		}
-		if reverted && !tm(*g.RevertedAt).Equal(*m.RevertedAt) {
-			w.V("C15", "%s: transaction %d revertedAt=%s, model %s", what, m.ID, tm(*g.RevertedAt), *m.RevertedAt)
-		}
-		if !metaEqual(map[string]string(g.Metadata), meta) {
-			w.V("C17", "%s: transaction %d metadata %v, model says %v (history feature %v, revisions %v)\nhistory:\n  %s",
-				what, m.ID, g.Metadata, meta, history, m.History, l.History())
-		}
-		if d := pcvDiff(g.PostCommitVolumes, l.M.PostCommitAt(m)); d != "" {
-			w.V("C03", "%s: transaction %d postCommitVolumes: %s\nhistory:\n  %s", what, m.ID, d, l.History())
-		}
-		w.checkRenderedTx(l, g, what)
-		if effective {
-			if d := pcvDiff(g.PostCommitEffectiveVolumes, l.M.PostCommitEffectiveAt(m)); d != "" {
-				w.V("C04", "%s: transaction %d postCommitEffectiveVolumes: %s\nhistory:\n  %s", what, m.ID, d, l.History())
+		w.compareTx(l, what, g, m, pit, effective)
+	}
+	// every transaction read by its id answers like the listing (and is unknown when the listing does not show it)
+	for _, m := range l.M.Txs {
+		visible, _, _ := txAt(m, pit, history)
+		one := fmt.Sprintf("GetTransaction(%s id=%d pit=%v)", l.Name, m.ID, pit)
+		g, err := l.C.GetTransaction(w.Ctx, common.ResourceQuery[any]{PIT: lt(pit), Builder: query.Match("id", int(m.ID)), Expand: expand})
+		switch {
+		case err != nil && postgres.IsNotFoundError(err):
+			if visible {
+				w.V("C05", "%s: not found, the listing at that point shows it\nhistory:\n  %s", one, l.History())
 			}
+		case err != nil:
+			w.checkErr(err)
+			w.V("C05", "%s failed: %v\nhistory:\n  %s", one, err, l.History())
+		case !visible:
+			w.V("C05", "%s: returned a transaction that does not exist at that point in time (timestamp %s)\nhistory:\n  %s", one, m.Timestamp, l.History())
+		default:
+			if g.ID == nil || *g.ID != m.ID {
+				w.V("C05|C19", "%s: returned transaction %v\nhistory:\n  %s", one, g.ID, l.History())
+			}
+			w.compareTx(l, one, *g, m, pit, effective)
+			if w.St != nil {
+				w.St.Add("transactions_read_by_id", 1)
+			}
+		}
+	}
+	if len(l.M.Txs) > 0 {
+		beyond := l.M.Txs[len(l.M.Txs)-1].ID + 7
+		if _, err := l.C.GetTransaction(w.Ctx, common.ResourceQuery[any]{PIT: lt(pit), Builder: query.Match("id", int(beyond)), Expand: expand}); err == nil || !postgres.IsNotFoundError(err) {
+			w.checkErr(err)
+			w.V("C05|C19", "GetTransaction(%s id=%d): expected not found, got err=%v\nhistory:\n  %s", l.Name, beyond, err, l.History())
 		}
 	}
 	// count agrees with the listing (C20)
@@ -159,6 +169,36 @@ func (w *World) checkTransactions(l *LState, pit *time.Time, pageSize uint64, or
 	if err != nil || n != len(want) {
 		w.V("C20", "CountTransactions(pit=%v) = %d (err %v), listing has %d", pit, n, err, len(want))
 	}
+}
+
+// compareTx: one transaction as returned by a read against the model's transaction at that point in time.
+func (w *World) compareTx(l *LState, what string, g ledger.Transaction, m *refmodel.Tx, pit *time.Time, effective bool) {
+	history := l.Has(features.FeatureTransactionMetadataHistory, "SYNC")
+	_, reverted, meta := txAt(m, pit, history)
+	if !postingsEqual(g.Postings, m.Postings) || g.Reference != m.Reference || !tm(g.Timestamp).Equal(m.Timestamp) || !tm(g.InsertedAt).Equal(m.InsertedAt) {
+		w.V("C02", "%s: transaction %d read back differently: postings=%s ref=%q ts=%s insertedAt=%s; committed as %+v\nhistory:\n  %s",
+			what, m.ID, postingsStr(g.Postings), g.Reference, tm(g.Timestamp), tm(g.InsertedAt), m, l.History())
+	}
+	if g.IsReverted() != reverted {
+		w.V("C05", "%s: transaction %d reverted=%v, model says %v (revertedAt %v)\nhistory:\n  %s", what, m.ID, g.IsReverted(), reverted, m.RevertedAt, l.History())
+	}
+	if reverted && !tm(*g.RevertedAt).Equal(*m.RevertedAt) {
+		w.V("C15", "%s: transaction %d revertedAt=%s, model %s", what, m.ID, tm(*g.RevertedAt), *m.RevertedAt)
+	}
+	if !metaEqual(map[string]string(g.Metadata), meta) {
+		w.V("C17", "%s: transaction %d metadata %v, model says %v (history feature %v, revisions %v)\nhistory:\n  %s",
+			what, m.ID, g.Metadata, meta, history, m.History, l.History())
+	}
+	if d := pcvDiff(g.PostCommitVolumes, l.M.PostCommitAt(m)); d != "" {
+		w.V("C03", "%s: transaction %d postCommitVolumes: %s\nhistory:\n  %s", what, m.ID, d, l.History())
+	}
+	w.checkRenderedTx(l, g, what)
+	if effective {
+		if d := pcvDiff(g.PostCommitEffectiveVolumes, l.M.PostCommitEffectiveAt(m)); d != "" {
+			w.V("C04", "%s: transaction %d postCommitEffectiveVolumes: %s\nhistory:\n  %s", what, m.ID, d, l.History())
+		}
+	}
+
 }
 
 func volumesByAssetsDiff(got ledger.VolumesByAssets, want map[string]refmodel.Vol) string {
@@ -206,7 +246,6 @@ func (w *World) checkAccounts(l *LState, pit *time.Time, pageSize uint64) {
 	if err != nil {
 		w.V("C05", "%s failed: %v\nhistory:\n  %s", what, err, l.History())
 	}
-	history := l.Has(features.FeatureAccountMetadataHistory, "SYNC")
 	var want []*refmodel.Account
 	for _, addr := range l.M.SortedAccounts() {
 		a := l.M.Accounts[addr]
@@ -242,34 +281,33 @@ func (w *World) checkAccounts(l *LState, pit *time.Time, pageSize uint64) {
 		if g.Address != a.Address {
 			w.V("C21", "%s: position %d holds %s, expected %s", what, i, g.Address, a.Address)
 		}
-		if !tm(g.FirstUsage).Equal(a.FirstUsage) {
-			w.V("C18", "%s: account %s firstUsage %s, model says %s\nhistory:\n  %s", what, a.Address, tm(g.FirstUsage), a.FirstUsage, l.History())
-		}
-		if !tm(g.InsertionDate).Equal(a.InsertionDate) {
-			w.V("C18", "%s: account %s insertionDate %s, model says %s\nhistory:\n  %s", what, a.Address, tm(g.InsertionDate), a.InsertionDate, l.History())
-		}
-		meta := a.Metadata
-		if pit != nil && history {
-			meta = refmodel.MetaAt(a.History, *pit)
-			if meta == nil {
-				meta = map[string]string{}
+		w.compareAccount(l, what, g, a, pit, insVols, effVols, moves, effective)
+	}
+	// every account read by its address answers like the listing
+	listed := map[string]bool{}
+	for _, a := range want {
+		listed[a.Address] = true
+	}
+	for _, addr := range append(l.M.SortedAccounts(), "nobody:ever:used:this") {
+		one := fmt.Sprintf("GetAccount(%s address=%s pit=%v expand=%v)", l.Name, addr, pit, expand)
+		g, err := l.C.GetAccount(w.Ctx, common.ResourceQuery[any]{PIT: lt(pit), Builder: query.Match("address", addr), Expand: expand})
+		switch {
+		case err != nil && postgres.IsNotFoundError(err):
+			if listed[addr] {
+				w.V("C18", "%s: not found, the listing at that point shows it\nhistory:\n  %s", one, l.History())
 			}
-		}
-		if !metaEqual(map[string]string(g.Metadata), meta) {
-			w.V("C17", "%s: account %s metadata %v, model says %v (history feature %v, revisions %v)\nhistory:\n  %s", what, a.Address, g.Metadata, meta, history, a.History, l.History())
-		}
-		if moves {
-			if d := volumesByAssetsDiff(g.Volumes, insVols[a.Address]); d != "" {
-				code := "C02"
-				if pit != nil {
-					code = "C02|C05"
-				}
-				w.V(code, "%s: account %s volumes: %s\nhistory:\n  %s", what, a.Address, d, l.History())
+		case err != nil:
+			w.checkErr(err)
+			w.V("C05", "%s failed: %v\nhistory:\n  %s", one, err, l.History())
+		case !listed[addr]:
+			w.V("C18|C19", "%s: returned an account (%s) the listing at that point does not show\nhistory:\n  %s", one, g.Address, l.History())
+		default:
+			if g.Address != addr {
+				w.V("C18|C19", "%s: returned account %s\nhistory:\n  %s", one, g.Address, l.History())
 			}
-		}
-		if effective {
-			if d := volumesByAssetsDiff(g.EffectiveVolumes, effVols[a.Address]); d != "" {
-				w.V("C05", "%s: account %s effectiveVolumes: %s\nhistory:\n  %s", what, a.Address, d, l.History())
+			w.compareAccount(l, one, *g, l.M.Accounts[addr], pit, insVols, effVols, moves, effective)
+			if w.St != nil {
+				w.St.Add("accounts_read_by_address", 1)
 			}
 		}
 	}
@@ -278,6 +316,56 @@ func (w *World) checkAccounts(l *LState, pit *time.Time, pageSize uint64) {
 	if err != nil || n != len(want) {
 		w.V("C20", "CountAccounts(pit=%v) = %d (err %v), listing has %d", pit, n, err, len(want))
 	}
+}
+
+// compareAccount: one account as returned by a read against the model's account at that point in time.
+func (w *World) compareAccount(l *LState, what string, g ledger.Account, a *refmodel.Account, pit *time.Time, insVols, effVols refmodel.Volumes, moves, effective bool) {
+	history := l.Has(features.FeatureAccountMetadataHistory, "SYNC")
+	if !tm(g.FirstUsage).Equal(a.FirstUsage) {
+		w.V("C18", "%s: account %s firstUsage %s, model says %s\nhistory:\n  %s", what, a.Address, tm(g.FirstUsage), a.FirstUsage, l.History())
+	}
+	if !tm(g.InsertionDate).Equal(a.InsertionDate) {
+		w.V("C18", "%s: account %s insertionDate %s, model says %s\nhistory:\n  %s", what, a.Address, tm(g.InsertionDate), a.InsertionDate, l.History())
+	}
+	meta := a.Metadata
+	if pit != nil && history {
+		meta = refmodel.MetaAt(a.History, *pit)
+		if meta == nil {
+			meta = map[string]string{}
+		}
+	}
+	if !metaEqual(map[string]string(g.Metadata), meta) {
+		w.V("C17", "%s: account %s metadata %v, model says %v (history feature %v, revisions %v)\nhistory:\n  %s", what, a.Address, g.Metadata, meta, history, a.History, l.History())
+	}
+	if moves {
+		if d := volumesByAssetsDiff(g.Volumes, insVols[a.Address]); d != "" {
+			code := "C02"
+			if pit != nil {
+				code = "C02|C05"
+			}
+			w.V(code, "%s: account %s volumes: %s\nhistory:\n  %s", what, a.Address, d, l.History())
+		}
+	}
+	if effective {
+		if d := volumesByAssetsDiff(g.EffectiveVolumes, effVols[a.Address]); d != "" {
+			w.V("C05", "%s: account %s effectiveVolumes: %s\nhistory:\n  %s", what, a.Address, d, l.History())
+		}
+	}
+
+}
+
+// CheckStats: GetStats counts the ledger's transactions and accounts (C19: and nobody else's).
+func (w *World) CheckStats(l *LState) {
+	w.guard(func() {
+		got, err := l.C.GetStats(w.Ctx)
+		if err != nil {
+			w.checkErr(err)
+			w.V("C05|C19", "GetStats(%s) failed: %v", l.Name, err)
+		}
+		if got.Transactions != len(l.M.Txs) || got.Accounts != len(l.M.Accounts) {
+			w.V("C19|C18|C08", "GetStats(%s) = %d transactions, %d accounts; the model has %d and %d\nhistory:\n  %s", l.Name, got.Transactions, got.Accounts, len(l.M.Txs), len(l.M.Accounts), l.History())
+		}
+	})
 }
 
 // CheckMovesTable audits the committed rows of the moves table of a ledger with MOVES_HISTORY=ON: in insertion (seq)
